@@ -253,6 +253,11 @@ impl World {
     }
 
     #[inline]
+    pub fn ev_pub(&mut self, e: Ev) {
+        self.ev(e)
+    }
+
+    #[inline]
     fn ev(&mut self, e: Ev) {
         if self.log_events {
             self.events.push(e);
@@ -373,6 +378,10 @@ impl World {
     }
 
     /// Called at every read(): invariant check + possibly release more client bytes.
+    pub fn client_step_pub(&mut self) {
+        self.client_step()
+    }
+
     fn client_step(&mut self) {
         if self.hostile {
             return;
@@ -452,6 +461,10 @@ impl World {
         self.ev(Ev::Release { op, units });
     }
 
+    pub fn sched_size_pub(&self, idx: u64) -> usize {
+        self.sched_size(idx)
+    }
+
     fn sched_size(&self, idx: u64) -> usize {
         if (idx as usize) < self.reads.explicit.len() {
             return (self.reads.explicit[idx as usize] as usize).max(1);
@@ -471,6 +484,10 @@ impl World {
                 1 + (crate::rng::mix(&[*seed, j as u64]) % (*max).max(1) as u64) as usize
             }
         }
+    }
+
+    pub fn cut_limit_pub(&self, from: u64) -> usize {
+        self.cut_limit(from)
     }
 
     fn cut_limit(&self, from: u64) -> usize {
